@@ -30,12 +30,44 @@ def trailing_field(e):
     return None
 
 
+_REHOME_PREDS = {}
+
+
 def atomic_sites(facts):
-    """all atomic operations in non-test code, classified by object"""
+    """all atomic operations in non-test code, classified by object.  A decrement that sits in a private predicate (`unsafe fn dec_ref(p) -> bool`:
+    fetch_sub, `== 1`, Acquire load, `true`) whose callers free on its `true` answer is read where the decision is acted on: in each caller, with the
+    predicate spliced in (the release primitive is then the caller, as it would be had the code been written out there)."""
+    k = "atomic_sites"
+    if k in facts.__dict__:
+        return facts.__dict__[k]
+    sites = _atomic_sites_in(facts, list(facts.fn_bodies()))
+    from .inline import callers_of, inlined
+    preds = {}
+    for s_ in sites:
+        b = s_["body"]
+        if s_["obj"] == "refcount" and s_["method"] == "fetch_sub" and b.kind in ("fn", "assoc_fn") and b.locals[0]["ty"] == "bool" \
+                and str(b.vis) != "Public" and not free_events(b, facts) and callers_of(facts, b.did):
+            preds[b.did] = b
+    if preds:
+        sites = [s_ for s_ in sites if s_["body"].did not in preds]
+        for did, pb in preds.items():
+            pr = _REHOME_PREDS.setdefault(did, (lambda facts_, caller, cb, fn, d=did: cb.did == d))
+            for cb in callers_of(facts, did):
+                if facts.is_test(cb):
+                    continue
+                view = inlined(facts, cb, pred=pr)
+                own = {(x["bb"], x["method"]) for x in sites if x["body"].did == cb.did}
+                sites = [x for x in sites if x["body"].did != cb.did]
+                sites += _atomic_sites_in(facts, [view])
+    facts.__dict__[k] = sites
+    return sites
+
+
+def _atomic_sites_in(facts, bodies):
     cbs = roles.control_blocks(facts)
     rc_fields = set(cbs.values())
     sites = []
-    for b in facts.fn_bodies():
+    for b in bodies:
         eb = None
         for bi, t in b.calls():
             fn = callee(t)
@@ -66,6 +98,28 @@ def atomic_sites(facts):
             sites.append({"body": b, "bb": bi, "method": fn["name"], "obj": obj, "field": fld, "args": args,
                           "ords": ords, "dest": dest, "term": t, "path": p})
     return sites
+
+
+def threaded_dominates(body, a, b_):
+    """every way from the entry to block b_ passes block a, in the CFG with jumps threaded through constant bool flags (`return true` of a
+    spliced-in predicate followed by the caller's `if answer { .. }` goes straight to the arm the constant selects)"""
+    from .flow import threaded_successors
+    succ = threaded_successors(body)
+    if a == b_:
+        return True
+    seen, st = {0}, [0]
+    if a == 0:
+        return True
+    while st:
+        x = st.pop()
+        for y in succ.get(x, []):
+            if y == a or y in seen:
+                continue
+            if y == b_:
+                return False
+            seen.add(y)
+            st.append(y)
+    return True
 
 
 def call_name(t):
@@ -164,13 +218,14 @@ def run(facts):
                        and x["field"] == s["field"]]
                 fences = [bi for bi, t in b.calls() if (call_name(t) or "").endswith("atomic::fence")]
                 for (fb, what) in fe:
-                    if not cfg.dominates(t1, fb):
+                    if not cfg.dominates(t1, fb) and not threaded_dominates(b, t1, fb):
                         probs.append("B2: %s at %s is not confined to the `== 1` edge of the decrement" % (what, b.loc(fb)))
                         continue
                     if o in ("AcqRel", "SeqCst"):
                         continue
-                    ok = any(cfg.dominates(t1, x["bb"]) and cfg.dominates(x["bb"], fb) and x["bb"] != fb for x in acq) or \
-                        any(cfg.dominates(t1, f) and cfg.dominates(f, fb) for f in fences)
+                    dom = lambda a_, b_: cfg.dominates(a_, b_) or threaded_dominates(b, a_, b_)
+                    ok = any(dom(t1, x["bb"]) and dom(x["bb"], fb) and x["bb"] != fb for x in acq) or \
+                        any(dom(t1, f) and dom(f, fb) for f in fences)
                     if not ok:
                         probs.append("O2: no Acquire load/fence of the counter between the `== 1` edge and %s at %s" % (what, b.loc(fb)))
                 if not fe:
